@@ -77,6 +77,8 @@ def collect(year):
                     expr = ('add', list(expr[1]))
                 elif expr[0] == 'sub':
                     expr = ('sub', expr[1], expr[2], bool(expr[3]))
+                elif expr[0] == 'guard0':
+                    expr = ('guard0', expr[1], tuple(expr[2]))
                 out[(cls.form_name, ln)] = (expr, o.get('text', sp), insts)
                 stats['parsed'] += 1
                 continue
@@ -116,43 +118,49 @@ def task(arg):
             n = '%s.%s' % (other_form or fname, x)
             v = val0(n)
             return v if v is not None else tm.R(0)
-        k = expr[0]
-        cond = tm.TRUE
-        if k == 'add':
-            E = tm.R(0)
-            for x in expr[1]:
-                E = tm.add(E, op(x))
-        elif k == 'sub':
-            E = tm.sub(op(expr[1]), op(expr[2]))
-            if expr[3]:
-                E = tm.max_(tm.R(0), E)
-        elif k == 'sub_ceil':
-            d_ = tm.sub(op(expr[1]), op(expr[2]))
-            step = tm.R(expr[3])
-            up = tm.mul(step, tm.to_real(tm.neg(tm.floor(tm.neg(tm.div(d_, step))))))
-            E = tm.ite(tm.le(d_, tm.R(0)), tm.R(0), up)
-        elif k == 'mul_rate':
-            E = tm.mul(tm.R(expr[2]), op(expr[1]))
-        elif k == 'mul_const':
-            E = tm.mul(tm.R(expr[2]), op(expr[1]))
-        elif k in ('min', 'max'):
-            E = (tm.min_ if k == 'min' else tm.max_)(op(expr[1]), op(expr[2]))
-        elif k == 'min_const':
-            cst = tm.ite(tm.eq(st, tm.I(members.index('MarriedFilingSeparately'))), tm.R(expr[2]['MarriedFilingSeparately']), tm.R(expr[2]['other']))
-            E = tm.min_(op(expr[1]), cst)
-        elif k == 'carry':
-            E = op(expr[1])
-        elif k == 'carry_form':
-            if '%s.%s' % (expr[1], expr[2]) not in rm.summ:
-                res['uncovered'].append((L, 'source %s.%s is not implemented' % (expr[1], expr[2])))
-                continue
-            E = op(expr[2], expr[1])
-        else:
+        class _Skip(Exception):
+            pass
+
+        def build(expr):
+            k = expr[0]
+            if k == 'add':
+                E = tm.R(0)
+                for x in expr[1]:
+                    E = tm.add(E, op(x))
+                return E
+            if k == 'sub':
+                E = tm.sub(op(expr[1]), op(expr[2]))
+                return tm.max_(tm.R(0), E) if expr[3] else E
+            if k == 'sub_ceil':
+                d_ = tm.sub(op(expr[1]), op(expr[2]))
+                step = tm.R(expr[3])
+                up = tm.mul(step, tm.to_real(tm.neg(tm.floor(tm.neg(tm.div(d_, step))))))
+                return tm.ite(tm.le(d_, tm.R(0)), tm.R(0), up)
+            if k in ('mul_rate', 'mul_const'):
+                return tm.mul(tm.R(expr[2]), op(expr[1]))
+            if k in ('min', 'max'):
+                return (tm.min_ if k == 'min' else tm.max_)(op(expr[1]), op(expr[2]))
+            if k == 'min_const':
+                cst = tm.ite(tm.eq(st, tm.I(members.index('MarriedFilingSeparately'))), tm.R(expr[2]['MarriedFilingSeparately']), tm.R(expr[2]['other']))
+                return tm.min_(op(expr[1]), cst)
+            if k == 'carry':
+                return op(expr[1])
+            if k == 'carry_form':
+                if '%s.%s' % (expr[1], expr[2]) not in rm.summ:
+                    res['uncovered'].append((L, 'source %s.%s is not implemented' % (expr[1], expr[2])))
+                    raise _Skip()
+                return op(expr[2], expr[1])
+            if k == 'guard0':
+                return tm.ite(tm.le(op(expr[1]), tm.R(0)), tm.R(0), build(tuple(expr[2]) if isinstance(expr[2], list) else expr[2]))
+            raise _Skip()
+        try:
+            E = build(expr)
+        except _Skip:
             continue
         Lv = rm.lvar[L][1]
         bad = tm.or_(tm.lt(tm.R(TOL), tm.sub(Lv, E)), tm.lt(tm.R(TOL), tm.sub(E, Lv)))
         t1 = time.time()
-        r, inputs, m = lf.query([rm.solved, rm.valued[L], bad])
+        r, inputs, m = lf.query([rm.solved, rm.valued[L], bad] + lf.integral(lf.cone(L, 2)))
         dt = time.time() - t1
         nm = 'ty%d/%s = %s' % (year, L, json.dumps(expr, default=str)[:80])
         res['obl'].append((nm, r, dt))
